@@ -5,9 +5,11 @@ import (
 	"fmt"
 	"net"
 	"net/http"
+	"reflect"
 	"strings"
 	"sync"
 	"time"
+	"unsafe"
 
 	"github.com/bokysan/socketace/v2/internal/client/listener"
 	"github.com/bokysan/socketace/v2/internal/client/upstream"
@@ -29,6 +31,8 @@ type Options struct {
 	TLS       bool   // the carrier itself is TLS (tcp+tls, wss, stdio+tls)
 	Channels  []string
 	AllowList []string // server endpoint allow-list (empty = all)
+	// AllowList2: ws carrier only: a second websocket path /ws2 with its own allow-list (nil = no second path)
+	AllowList2 *[]string
 
 	ServerCert        string // "", good, wronghost, untrusted, expired  (non-empty + !TLS => StartTLS offered)
 	RequireClientCert bool
@@ -193,12 +197,23 @@ func New(o Options) (*World, error) {
 		w.HTTP = server.NewHttpServer()
 		w.HTTP.ServerConfig = w.SrvCfg
 		w.HTTP.VerifSetSecure(o.TLS)
-		h, err := w.HTTP.EndpointHandler(&server.HttpEndpoint{Endpoint: "/ws", Channels: o.AllowList}, filtered)
+		h, err := endpointHandler(w.HTTP, &server.HttpEndpoint{Endpoint: "/ws", Channels: o.AllowList}, filtered)
 		if err != nil {
 			return nil, err
 		}
 		mux := http.NewServeMux()
 		mux.HandleFunc("/ws", h)
+		if o.AllowList2 != nil {
+			f2, err := w.SrvChans.Filter(*o.AllowList2)
+			if err != nil {
+				return nil, errors.Wrap(err, "Filter")
+			}
+			h2, err := endpointHandler(w.HTTP, &server.HttpEndpoint{Endpoint: "/ws2", Channels: *o.AllowList2}, f2)
+			if err != nil {
+				return nil, err
+			}
+			mux.HandleFunc("/ws2", h2)
+		}
 		srv := &http.Server{Handler: mux}
 		var l net.Listener = w.Listener
 		if o.TLS {
@@ -270,12 +285,53 @@ func (w *World) serveStream(l net.Listener, secure bool, chans server.Channels) 
 	}
 }
 
+// endpointHandler performs one iteration of HttpServer.Startup's per-endpoint loop
+// (Filter has been applied by the caller): it obtains the handler for one websocket path.
+// The call goes through reflection so that a refactoring of EndpointHandler's parameter list
+// (e.g. the filtered channels kept in a field set by Startup instead of being passed) does
+// not break the harness build; in that shape the field is set as Startup would set it.
+func endpointHandler(h *server.HttpServer, ep *server.HttpEndpoint, filtered server.Channels) (http.HandlerFunc, error) {
+	m := reflect.ValueOf(h).MethodByName("EndpointHandler")
+	if !m.IsValid() {
+		return nil, fmt.Errorf("HttpServer has no EndpointHandler method any more")
+	}
+	var in []reflect.Value
+	switch m.Type().NumIn() {
+	case 2:
+		in = []reflect.Value{reflect.ValueOf(ep), reflect.ValueOf(filtered)}
+	case 1:
+		f := reflect.ValueOf(h).Elem().FieldByName("upstreams")
+		if !f.IsValid() || f.Type() != reflect.TypeOf(filtered) {
+			return nil, fmt.Errorf("unsupported shape of HttpServer.EndpointHandler")
+		}
+		reflect.NewAt(f.Type(), unsafe.Pointer(f.UnsafeAddr())).Elem().Set(reflect.ValueOf(filtered))
+		in = []reflect.Value{reflect.ValueOf(ep)}
+	default:
+		return nil, fmt.Errorf("unsupported shape of HttpServer.EndpointHandler")
+	}
+	out := m.Call(in)
+	if len(out) != 2 {
+		return nil, fmt.Errorf("unsupported result of HttpServer.EndpointHandler")
+	}
+	if e, ok := out[1].Interface().(error); ok && e != nil {
+		return nil, e
+	}
+	hf, ok := out[0].Interface().(http.HandlerFunc)
+	if !ok {
+		return nil, fmt.Errorf("unsupported result type of HttpServer.EndpointHandler")
+	}
+	return hf, nil
+}
+
 type dummyPacketConn struct{ net.PacketConn }
 
 // NewClient returns an additional, independent client (its own Upstreams and front-end)
 // connecting to the same server endpoint.
-func (w *World) NewClient() *upstream.Upstreams {
-	f := &Front{W: w, Kind: w.Opt.Carrier, TLS: w.Opt.TLS, Host: w.Opt.Host}
+func (w *World) NewClient() *upstream.Upstreams { return w.NewClientPath("") }
+
+// NewClientPath is NewClient for a given websocket path.
+func (w *World) NewClientPath(path string) *upstream.Upstreams {
+	f := &Front{W: w, Kind: w.Opt.Carrier, TLS: w.Opt.TLS, Host: w.Opt.Host, Path: path}
 	return &upstream.Upstreams{Data: []upstream.Upstream{f}, MustSecure: w.Opt.MustSecure}
 }
 
@@ -360,6 +416,7 @@ type Front struct {
 	IO    *upstream.InputOutput
 	Dials int
 	Err   string
+	Path  string // ws: websocket path (default /ws)
 }
 
 func (f *Front) String() string { return f.Kind + "://" + f.Host }
@@ -439,7 +496,11 @@ func (f *Front) Connect(manager cert.TlsConfig, mustSecure bool) (err error) {
 		if f.TLS {
 			scheme = "wss"
 		}
-		c, _, err := dialer.Dial(scheme+"://"+f.Host+"/ws", nil)
+		path := f.Path
+		if path == "" {
+			path = "/ws"
+		}
+		c, _, err := dialer.Dial(scheme+"://"+f.Host+path, nil)
 		if err != nil {
 			return errors.Wrapf(err, "Could not connect to %v", f.Host)
 		}
